@@ -15,31 +15,38 @@ from harness.lib import hx, zl, cz, cbool, clist
 ID = 'C05'
 RULE = ('files of BED3/BED6/FASTQ/two-line FASTA/VCF/SAM built from per-record field texts (canonical and non-canonical '
         'spellings, header lines, extra columns, gzip-compressed, CRLF) and BAM files (read-only); programs of 1..9 steps over two '
-        'registers drawn from {len, get f, t[slice], t[mask], t[int list], t[i], concatenate, replace(f=array), tolist, write} x '
+        'registers drawn from {len, get f, t[slice], t[mask], t[int list], t[i], concatenate, replace(f=array), tolist, write, sort_by f} x '
         '{whole read, chunked read}; every length<=2 (thorough: <=3) program over a fixed 13-step menu; every field replaced and '
         'written; integer-list selections with out-of-order interior bounded by first/last row, written unmodified; '
+        'round 6: VCF files with header lines (also ##INFO) written from the table read() returned, FASTQ quality replaced and written, '
+        'concatenate of lazily read with materialised tables (FASTQ / two-line FASTA); sort_by on int / text / SequenceID keys with ties on '
+        'fresh, cached, replaced, selected, concatenated tables; '
         'non-trivial = the program has an index, concatenate or write after a field access or a replace')
 EXHAUSTIVE = {'quick': False, 'thorough': False}
 TIE = 'translator+correspondence'
-ASSUMPTIONS = ['A-eager: the eager implementation is the eager model e_run of Model/C05.v (row lists + header context lost on derived tables + '
-               'VCF writer quirks); checked on every case by Corr.eager_ok (exact, written bytes included), proved equal to the row-list '
-               'Spec under eager_guard (C05_eager_is_spec); not proved: that the parser/serialiser of /repo compute rows_of_file / s_write (C02/C03)',
+ASSUMPTIONS = ['A-eager: the eager implementation is the eager model e_run6 of Model/C05.v (row lists + header context lost on derived tables + '
+               'default VCF header); checked on every case by Corr.eager_ok (exact, written bytes included), proved equal to the row-list '
+               'Spec under the per-step e_guard6 (C05_eager_is_spec_r6); not proved: that the parser/serialiser of /repo compute rows_of_file / s_write (C02/C03)',
                'written bytes are compared lazy-vs-eager only when every record of the file is canonically spelled (C04 owns pass-through of '
                'non-canonical text); Coq decides canonicity (rec_canon); C05_spec_roundtrip shows every table has such a file',
                'BAM is generated read-only (no replace / write: the BAM writer refuses modified data and compresses its output); chunk sizes of '
                'BAM reads are >= the largest record (below that the reader ends the stream early in BOTH modes, C16/C01 matter); '
                'float columns and Optional[int] with "." are not generated',
                'replacement arrays have the table length and the type the eager table itself holds for that field',
+               'sort_by is generated for int, text (str) and SequenceID key fields only (not strand, quality, cigar lists; not BAM): the model orders '
+               'integers numerically and texts bytewise, checked against np.argsort(kind=stable) on every generated case',
                't[i]: exact for lazily read tables of text formats with ragged columns (always raises); for materialised tables and for BAM '
                'the model states the row and an error of npstructures RaggedView2 under NumPy 2 is tolerated by model_ok; spec_ok reports '
                'it when only one mode fails']
-PARTIAL = ['C05_lazy_is_eager_partial (the property on the two models at HEAD) holds under m_guard_fixed (no concatenate of a lazy with a '
-           'materialised table [C05_concat_mixed_refuted]; no t[i] on a lazily read table with ragged columns [C05_at_ragged_refuted]; no write of '
-           'a replaced column the writer cannot format [C05_write_replaced_refuted]; '
-           'replacement columns of table length) and eager_guard (no header lines, no default header: [C05_eager_header_lost_refuted, '
-           'C05_eager_write_fails_refuted, C05_eager_default_header_refuted])',
-           'C05_refines_partial / C05_file_level_partial are about the concatenate BEFORE c5ab8ed (kept as history: first-operand keys), '
-           'C05_refines_fixed / C05_file_level_fixed about the code at HEAD',
+PARTIAL = ['C05_lazy_is_eager_x_partial (programs over the ten operations + sort_by; Corr runs every case in this language) and '
+           'C05_lazy_is_eager_partial (the ten operations): the property on the two CURRENT models m_xrun / e_xrun (m_run6 / e_run6) = the code after notes/C05.fix-4/5/6.diff holds '
+           'under m_guard6 (no t[i] on a lazily read table with ragged columns [C05_at_ragged_r6_refuted]; replacement columns of table '
+           'length; existing fields; no parser that raises) and the per-step e_guard6 (a written eager table still has its header context, '
+           'or there is no header / default header to lose [C05_eager_header_lost_r6_refuted, C05_eager_default_header_refuted, '
+           'C05_eager_needs_context_refuted])',
+           'history, about the PINNED models of the code before round 6: C05_lazy_is_eager_pre6_partial, C05_refines_fixed / C05_file_level_fixed '
+           '(guards m_guard_fixed / eager_guard; witnesses C05_concat_mixed_refuted, C05_write_replaced_refuted, C05_eager_write_fails_refuted), '
+           'and C05_refines_partial / C05_file_level_partial about the concatenate BEFORE c5ab8ed (first-operand keys)',
            'written bytes are proved equal under canonical spelling only (C05_noncanonical_write_differs)']
 PER_FILE = 40
 
@@ -255,6 +262,9 @@ def _run_mode(case, path, d, lazy):
                 o = {'v': 'ok'}
             elif k == 'tolist':
                 o = {'v': _rows_from_tolist(fields, t.tolist())}
+            elif k == 'sortby':
+                regs[r] = t.sort_by(fields[op[2]][0])
+                o = {'v': 'ok'}
             elif k == 'sel':
                 regs[r] = regs[op[2]][_index_of(op[3])]
                 o = {'v': 'ok'}
@@ -364,10 +374,8 @@ class _Sym:
 
 
 def _cat_clean(fmt, syms):
-    kinds = {s.kind for s in syms}
-    if len(kinds) > 1:
-        return False
-    # since c5ab8ed np.concatenate merges over the union of the replaced keys: any all-lazy operand list is fine
+    # since c5ab8ed np.concatenate merges over the union of the replaced keys: any all-lazy operand list is fine;
+    # since notes/C05.fix-5.diff lazy and materialised operands may be mixed (the result is materialised)
     return True
 
 
@@ -376,8 +384,8 @@ def _sym_apply(fmt, regs, op):
     nf = len(FORMATS[fmt]['fields'])
     k, r = op[0], op[1]
     s = regs[r]
-    if k == 'get' and s.kind == 'lazy' and op[2] not in s.setk:
-        s.compk.add(op[2])
+    if k in ('get', 'sortby') and s.kind == 'lazy' and op[2] not in s.setk:
+        s.compk.add(op[2])        # sort_by reads its key through __getattr__ (cached), then indexes: same keys, same length
     elif k == 'slice':
         s.n = len(range(s.n)[slice(op[2], op[3], op[4])])
     elif k == 'mask':
@@ -405,7 +413,7 @@ def _sym_apply(fmt, regs, op):
     elif k == 'cat':
         src = [regs[j] for j in op[2]]
         new = _Sym(sum(x.n for x in src))
-        if src[0].kind == 'eager' or fmt in NOCONCAT:
+        if any(x.kind == 'eager' for x in src) or fmt in NOCONCAT:
             new.kind = 'eager'
         else:
             new.setk = set().union(*[x.setk for x in src])
@@ -470,9 +478,7 @@ def _gen_prog(rng, fmt, n0, length, clean, chunked):
                 prog.append(rng.choice([['len', r], ['tolist', r]] + ([] if fmt == 'bam' else [['write', r]])))
                 return prog
         elif k == 'rep':
-            f = rng.randrange(nf)
-            if clean and ((fmt == 'fastq' and f == 2) or (fmt == 'vcf' and f == 7)):
-                continue
+            f = rng.randrange(nf)       # every field: FASTQ quality and VCF info are writable since fix-4 / cb3a6ef
             op = ['rep', r, f, _new_vals(rng, fmt, f, n)]
         elif k == 'tolist':
             op = ['tolist', r]
@@ -731,6 +737,98 @@ def generate(tier, seed):
             vals[0] = ''                       # a tags column replaced by an empty value
         c['prog'] = [['write', 0], ['rep', 0, f, vals], ['write', 0], ['tolist', 0], ['write', 1]]
         cases.append(c)
+    # (j) round 6 — the classes of the three repaired findings, as ordinary cases:
+    #  (j1) VCF files WITH header lines (canonical and not), whole read: the table read() returned is written directly, after
+    #       field reads / tolist, twice, and next to a derived sibling that is only read (fix-6; a derived table written
+    #       is still C05-header-lost-on-derived-eager-table)
+    vcf_hdrs = ['##fileformat=VCFv4.2\n#CHROM\tPOS\tID\tREF\tALT\tQUAL\tFILTER\tINFO\n', '#CHROM\tPOS\tID\tREF\tALT\tQUAL\tFILTER\tINFO\n',
+                '##fileformat=VCFv4.3\n##source=x\n##contig=<ID=chr1,length=1000>\n#CHROM\tPOS\tID\tREF\tALT\tQUAL\tFILTER\tINFO\n']
+    for i in range(18 if tier == 'quick' else 90):
+        nrec = rng.choice([1, 2, 3, 4])
+        c = _gen_file(rng, 'vcf', nrec, i % 3 != 2)
+        c['header'] = vcf_hdrs[i % len(vcf_hdrs)]
+        c['chunk'] = None
+        f1, f2 = rng.randrange(8), rng.randrange(8)
+        c['prog'] = [[['write', 0]],
+                     [['get', 0, f1], ['write', 0], ['get', 0, f2], ['write', 0]],
+                     [['tolist', 1], ['write', 1], ['len', 1]],
+                     [['sel', 0, 1, ['slice', None, None, -1]], ['get', 0, f1], ['tolist', 0], ['write', 1], ['get', 1, f2]],
+                     [['write', 1], ['cat', 0, [0, 1]], ['get', 0, 1], ['write', 1]],
+                     [['slice', 0, 0, 0, None], ['write', 1], ['len', 0]]][i % 6]
+        cases.append(c)
+    #  (j1b) the same with ##INFO header lines: the info column is then a nested (lazily parsed) table in BOTH modes, which
+    #       this harness does not observe — the programs read the other fields only; the eager writer spells the info
+    #       column back from the text it was read from (InfoBuffer.as_text, fix-6), also for selections
+    info_hdr = ('##fileformat=VCFv4.2\n##INFO=<ID=DP,Number=1,Type=Integer,Description="d">\n'
+                '##INFO=<ID=AF,Number=A,Type=Float,Description="a">\n#CHROM\tPOS\tID\tREF\tALT\tQUAL\tFILTER\tINFO\n')
+    for i in range(12 if tier == 'quick' else 60):
+        nrec = rng.choice([1, 2, 3, 4, 5])
+        c = _gen_file(rng, 'vcf', nrec, True)
+        c['header'] = info_hdr
+        c['chunk'] = None
+        f1, f2 = rng.randrange(7), rng.randrange(7)
+        c['prog'] = [[['write', 0]],
+                     [['get', 0, f1], ['write', 0], ['get', 0, f2], ['len', 0]],
+                     [['sel', 0, 1, ['slice', None, None, -1]], ['get', 0, f1], ['write', 1], ['get', 1, f2]],
+                     [['write', 1], ['get', 1, f1], ['write', 1]],
+                     # a selection written: the eager file starts with the default header (listed finding), its body is compared
+                     [['slice', 0, None, None, -1], ['write', 0], ['write', 1]],
+                     [['mask', 0, [j % 2 == 0 for j in range(nrec)]], ['get', 0, f1], ['write', 0]]][i % 6]
+        cases.append(c)
+    #  (j2) FASTQ: the quality column replaced (by the RaggedArray of phred values the eager table itself holds) and written:
+    #       directly, after reading it back, on a selection, together with another replaced column (fix-4)
+    for i in range(18 if tier == 'quick' else 90):
+        nrec = rng.choice([1, 1, 2, 3, 4])
+        c = _gen_file(rng, 'fastq', nrec, True)
+        c['chunk'] = None
+        q = lambda n: [''.join(rng.choice(QCH) for _ in range(rng.randint(1, 4))) for _ in range(n)]
+        m = nrec - 1
+        c['prog'] = [[['rep', 0, 2, q(nrec)], ['write', 0]],
+                     [['rep', 0, 2, q(nrec)], ['get', 0, 2], ['write', 0], ['tolist', 0]],
+                     [['slice', 0, 1, None, None], ['rep', 0, 2, q(m)], ['write', 0], ['write', 1]],
+                     [['rep', 0, 0, _new_vals(rng, 'fastq', 0, nrec)], ['rep', 0, 2, q(nrec)], ['write', 0], ['get', 0, 0]],
+                     [['get', 1, 2], ['rep', 1, 2, q(nrec)], ['slice', 1, None, None, -1], ['write', 1], ['get', 1, 2]],
+                     [['rep', 0, 2, q(nrec)], ['cat', 0, [0, 1]], ['write', 0], ['tolist', 0]]][i % 6]
+        cases.append(c)
+    #  (j3) FASTQ / two-line FASTA (buffer classes without `concatenate`): np.concatenate of a lazily read table with the
+    #       materialised result of an earlier concatenate, in both operand orders, three operands, after a selection, then
+    #       read / replaced / written (fix-5)
+    for i in range(24 if tier == 'quick' else 120):
+        fmt = ['fastq', 'fasta2'][i % 2]
+        nrec = rng.choice([1, 2, 3])
+        c = _gen_file(rng, fmt, nrec, True)
+        c['chunk'] = None if i % 8 else _chunk_choice(rng, c)
+        last = len(FORMATS[fmt]['fields']) - 1
+        c['prog'] = [[['cat', 0, [0, 1]], ['cat', 0, [0, 1]], ['len', 0], ['tolist', 0], ['write', 0]],
+                     [['cat', 0, [0, 1]], ['cat', 0, [1, 0]], ['get', 0, 0], ['write', 0]],
+                     [['cat', 0, [0, 1]], ['cat', 1, [1, 0, 1]], ['get', 1, last], ['tolist', 1]],
+                     [['cat', 0, [0, 0]], ['slice', 0, 1, None, None], ['cat', 0, [1, 0]], ['rep', 0, last, _new_vals(rng, fmt, last, 3 * nrec - 1)],
+                      ['write', 0], ['write', 1]],
+                     [['get', 1, 0], ['cat', 0, [0, 1]], ['cat', 0, [0, 1, 1]], ['slice', 0, None, None, -1], ['tolist', 0], ['get', 1, last]],
+                     [['rep', 1, last, _new_vals(rng, fmt, last, nrec)], ['cat', 0, [0, 0]], ['cat', 0, [1, 0]], ['get', 0, last], ['write', 0]]][(i // 2) % 6]
+        cases.append(c)
+    # (k) round 6, part 2 — sort_by (stable argsort of a key column, then integer-list indexing) on integer, text and
+    #     SequenceID fields with ties, on freshly read, cached, replaced, selected and concatenated tables; then read / written
+    for i in range(84 if tier == 'quick' else 420):
+        fmt = FMT_ORDER[i % len(FMT_ORDER)]
+        flds = FORMATS[fmt]['fields']
+        sortable = [j for j, (_, kd) in enumerate(flds) if kd in ('int', 'int1', 'str', 'sid')]
+        if fmt == 'bam' or not sortable:
+            continue
+        nrec = rng.choice([2, 3, 4, 5, 5])
+        c = _gen_file(rng, fmt, nrec, i % 5 != 4)
+        if rng.random() < 0.5:                      # force ties in the key columns
+            c['recs'][-1] = list(c['recs'][0][:])
+        c['chunk'] = None if i % 7 else _chunk_choice(rng, c)
+        f, g = rng.choice(sortable), rng.choice(sortable)
+        h = rng.randrange(len(flds))
+        c['prog'] = [[['sortby', 0, f], ['tolist', 0], ['write', 0]],
+                     [['get', 0, f], ['sortby', 0, f], ['get', 0, h], ['sortby', 0, g], ['get', 0, g], ['write', 0]],
+                     [['rep', 0, g, _new_vals(rng, fmt, g, nrec)], ['sortby', 0, g], ['get', 0, f], ['tolist', 0], ['write', 0]],
+                     [['slice', 0, None, None, -1], ['sortby', 0, f], ['cat', 0, [0, 1]], ['sortby', 0, g], ['tolist', 0], ['get', 1, f]],
+                     [['sortby', 1, f], ['sel', 0, 1, ['slice', 1, None, None]], ['sortby', 0, g], ['write', 0], ['tolist', 1]],
+                     [['sortby', 0, f], ['sortby', 0, f], ['len', 0], ['get', 0, f], ['write', 1]]][(i // len(FMT_ORDER)) % 6]
+        cases.append(c)
     cases.sort(key=lambda c: len(c['prog']) + len(c['recs']))
     seen, out = set(), []
     for c in cases:
@@ -767,6 +865,12 @@ def _opt(x):
 
 
 def _op(case, op):
+    if op[0] == 'sortby':
+        return '(XSortBy %d %d)' % (op[1], op[2])
+    return '(XB %s)' % _op_base(case, op)
+
+
+def _op_base(case, op):
     k, r = op[0], op[1]
     fields = FORMATS[case['fmt']]['fields']
     if k == 'len':
@@ -832,7 +936,7 @@ def to_coq(case, o):
                 cz(TAGS.index(fmt)), hx(_header_bytes(case)), recs, hx(_file_bytes(case)),
                 cbool(case.get('chunk') is not None),
                 clist([zl(x) for x in chl], 'list Z'), clist([zl(x) for x in che], 'list Z'),
-                clist([_op(case, p) for p in prog], 'op'),
+                clist([_op(case, p) for p in prog], 'xop'),
                 clist([_obs(p, x) for p, x in zip(prog, L)], 'obs'), clist([_obs(p, x) for p, x in zip(prog, E)], 'obs')))
 
 
@@ -842,7 +946,7 @@ def nontrivial(case, o):
     for op in case['prog']:
         if op[0] in ('get', 'rep', 'tolist'):
             seen = True
-        elif seen and op[0] in ('slice', 'mask', 'take', 'cat', 'write', 'at', 'sel', 'wread'):
+        elif seen and op[0] in ('slice', 'mask', 'take', 'cat', 'write', 'at', 'sel', 'wread', 'sortby'):
             return True
     return False
 
@@ -920,44 +1024,26 @@ def _explain_steps(case, o):
     regs = [_Sym(len(case['recs'])), _Sym(len(case['recs']))]
     if case.get('chunk') is not None and fmt in NOCONCAT:
         regs[0].kind = regs[1].kind = 'eager'
-    stale = [False, False]        # the lazy register missed a concatenate the eager one performed
     ectx = [case.get('chunk') is None and fmt != 'bam'] * 2      # the EAGER register has the file's header context (a BAM table never)
     out = []
     for i, op in enumerate(case['prog']):
         k, r = op[0], op[1]
         a, b = L[i], E[i]
-        if k in ('slice', 'mask', 'take', 'sel', 'cat', 'rep') and 'e' not in b:
+        if k in ('slice', 'mask', 'take', 'sel', 'cat', 'rep', 'sortby') and 'e' not in b:
             ectx[r] = False
-        if k == 'cat':
-            src = [regs[j] for j in op[2]]
-            mixed = len({s.kind for s in src}) > 1
-            if a != b:
-                if mixed and a.get('e') == 'AssertionError' and 'v' in b:
-                    out.append((i, 'C05-concat-lazy-with-materialised'))
-                    stale[r] = True
-                else:
-                    out.append((i, None))
-                continue           # the lazy register keeps its old content: bookkeeping unchanged
-            if any(stale[j] for j in op[2]):
-                stale[r] = True
+        if k == 'cat' and a != b:
+            out.append((i, None))
+            continue           # one register keeps its old content: bookkeeping unchanged
         diff = (a != b)
         if k == 'write' and 'v' in a and 'v' in b and not canon:
             diff = False
         if diff and k != 'cat':
             why = None
-            if stale[r] and k in ('len', 'get', 'tolist', 'write', 'at', 'wread') and 'v' in b:
-                # the two registers hold different tables since the one-sided concatenate failure
-                why = 'C05-concat-lazy-with-materialised'
-            elif k in ('wread', 'write') and fmt == 'bam' and 'v' in a and b.get('e') == 'KeyError' and not ectx[r]:
+            if k in ('wread', 'write') and fmt == 'bam' and 'v' in a and b.get('e') == 'KeyError' and not ectx[r]:
                 # BamBuffer.make_header reads the header context, which a derived eager table has lost
                 why = 'C05-header-lost-on-derived-eager-table'
             elif k == 'at' and ragged and sorted([a.get('e', 'value'), b.get('e', 'value')]) == ['TypeError', 'value']:
                 why = 'C05-int-index-ragged-column'
-            elif k == 'write' and 'v' in a and b.get('e') == 'KeyError' and fmt == 'vcf' and case.get('header'):
-                why = 'C05-vcf-eager-write-with-header'
-            elif k == 'write' and a.get('e') in ('ValueError', 'TypeError') and 'v' in b and fmt == 'fastq' and 2 in regs[r].setk \
-                    and regs[r].kind == 'lazy' and regs[r].n > 0:
-                why = 'C05-replaced-column-not-writable'
             elif k == 'write' and 'v' in a and 'v' in b and _header_lost(case, a['v'], b['v']):
                 why = 'C05-header-lost-on-derived-eager-table'
             out.append((i, why))
